@@ -63,14 +63,15 @@ Print Assumptions C18_try_fallback_shared_refuted.
 
 (* a stack of any length over {try_*, try_back, kwargs_support, cache, loops, pd2np} returns what f returns on
    every call whose keywords are all declared; a raising f raises the same through a stack without try_* *)
-Theorem C18_stack_transparent V R (none : R) (inj : V -> R) (s : sig V) chain (f : call V -> lres R) c :
+Theorem C18_stack_transparent V R (none : R) (inj : V -> R) pdcall (s : sig V) chain (f : call V -> lres R) c :
   (forall kv, In kv (snd c) -> In (fst kv) (pos s)) -> ~ In "axis" (map fst (snd c)) -> ~ In "self" (map fst (snd c)) ->
-  (forall r, f c = LOk r -> call_stack none inj s chain f c = LOk r) /\
-  (forall e, f c = LErr e -> ~ In TTry chain -> ~ In TBack chain -> call_stack none inj s chain f c = LErr e).
+  pdcall s c = c ->      (* the first argument is not a pandas object: pd2np hands the call on unchanged, whatever its exc= *)
+  (forall r, f c = LOk r -> call_stack none inj pdcall s chain f c = LOk r) /\
+  (forall e, f c = LErr e -> ~ In TTry chain -> ~ In TBack chain -> call_stack none inj pdcall s chain f c = LErr e).
 Proof.
-  intros H1 H2 H3. assert (E : call_stack none inj s chain f c = apply_chain none inj s chain f c).
+  intros H1 H2 H3 H4. assert (E : call_stack none inj pdcall s chain f c = apply_chain none inj pdcall s chain f c).
   { unfold call_stack. destruct chain; [reflexivity|]. rewrite (proj2 (inl_false _ _) H3). reflexivity. }
-  rewrite E. exact (stack_transparent none inj s chain f c H1 H2).
+  rewrite E. exact (stack_transparent none inj pdcall s chain f c H1 H2 H4).
 Qed.
 Print Assumptions C18_stack_transparent.
 
@@ -83,18 +84,18 @@ Theorem C18_reserved_names_refuted :
   let s2 := {| pos := ["a"; "self"]; defs := [5%Z]; varargs := false; varkw := false |} in
   let s3 := {| pos := ["a"; "function"]; defs := [5%Z]; varargs := false; varkw := false |} in
   fn s1 ([1%Z], [("axis", 7%Z)]) = LOk [("a", BV 1%Z); ("axis", BV 7%Z)] /\
-  call_stack (R := amap (bval Z)) [] (fun _ => []) s1 [TLoop] (fn s1) ([1%Z], [("axis", 7%Z)]) = LOk [("a", BV 1%Z); ("axis", BV 5%Z)] /\
+  call_stack (R := amap (bval Z)) [] (fun _ => []) (fun _ c => c) s1 [TLoop] (fn s1) ([1%Z], [("axis", 7%Z)]) = LOk [("a", BV 1%Z); ("axis", BV 5%Z)] /\
   (exists r, fn s2 ([1%Z], [("self", 7%Z)]) = LOk r) /\
-  call_stack (R := amap (bval Z)) [] (fun _ => []) s2 [TCache] (fn s2) ([1%Z], [("self", 7%Z)]) = LErr "TypeError" /\
+  call_stack (R := amap (bval Z)) [] (fun _ => []) (fun _ c => c) s2 [TCache] (fn s2) ([1%Z], [("self", 7%Z)]) = LErr "TypeError" /\
   (exists r, bind s3 ([1%Z], [("function", 7%Z)]) = Some r) /\
   lib_getcallargs_py s3 ([1%Z], [("function", 7%Z)]) = LErr "TypeError".
 Proof. vm_compute. repeat split; eauto. Qed.
 Print Assumptions C18_reserved_names_refuted.
 
 (* without those names the Python entry points are the modelled algorithms *)
-Theorem C18_entry_points V R (none : R) (inj : V -> R) (s : sig V) chain (f : call V -> lres R) c :
+Theorem C18_entry_points V R (none : R) (inj : V -> R) pdcall (s : sig V) chain (f : call V -> lres R) c :
   (~ In "function" (map fst (snd c)) -> lib_getcallargs_py s c = lib_getcallargs s c) /\
-  (~ In "self" (map fst (snd c)) -> call_stack none inj s chain f c = apply_chain none inj s chain f c).
+  (~ In "self" (map fst (snd c)) -> call_stack none inj pdcall s chain f c = apply_chain none inj pdcall s chain f c).
 Proof.
   split; intros H.
   - unfold lib_getcallargs_py. rewrite (proj2 (inl_false _ _) H). reflexivity.
